@@ -220,7 +220,7 @@ def disarm(ctx, P, views, iters):
                     return True
                 n = e.node
                 return e.kind in ("assign", "call", "return", "aug") and any(id(x) in ids for x in ast.walk(n))
-            w = Walker(P, view, keep=keep, track=lambda t, fr: True, inline=lambda ev: False, loop_iters=iters)
+            w = Walker(P, view, keep=keep, track=lambda t, fr: True, inline=rules.new_helper, loop_iters=iters)
             for st in w.paths_of(cls, fn):
                 for i, e in enumerate(st.events):
                     if e.kind == "guard":
@@ -335,7 +335,7 @@ def blocked_flag(ctx, P, views, iters):
                     lo = listop(e)
                     return bool(lo and lo[2] == "blocked_queue" and lo[0] == "rem" and e.d["meth"] == "remove")
                 return e.kind == "assign" and e.d["target"].endswith(".is_blocked")
-            w = Walker(P, view, keep=keep, inline=lambda ev: False, loop_iters=iters)
+            w = Walker(P, view, keep=keep, inline=rules.new_helper, loop_iters=iters)
             for st in w.paths_of(cls, fn):
                 rem = [e for e in st.events if e.kind == "call"]
                 clr = [e for e in st.events if e.kind == "assign" and e.d["value"] == "False"]
